@@ -1309,6 +1309,85 @@ func doOp(o *Op) {
 					return
 				}
 			}
+			if o.Ctx == "rebuild" {
+				// the collection is built, edited by Remove only, and built again: every required dependency nobody
+				// provides gets a filler registration first; a first Build succeeds (or fails for another reason);
+				// the fillers are removed; the Build that follows is the one that is judged - on exactly the
+				// configuration's registrations
+				type fill struct {
+					t reflect.Type
+					k any
+				}
+				var fills []fill
+				have := func(t string, k string) bool {
+					for i := range R.cfg.Regs {
+						r := &R.cfg.Regs[i]
+						for o := 1; o <= 2; o++ {
+							if tt, kk, ok := outIdent(r, o); ok && tt == typeByName(t) {
+								ks := "-"
+								if kk != nil {
+									ks = fmt.Sprint(kk)
+								}
+								removed := false
+								for _, x := range r.Rm {
+									removed = removed || x == o
+								}
+								if ks == k && !removed {
+									return true
+								}
+							}
+						}
+					}
+					return false
+				}
+				for i := range R.cfg.Regs {
+					for _, pp := range R.cfg.Regs[i].Params {
+						if pp.B != "-" || pp.G != "-" || pp.Opt {
+							continue
+						}
+						if _, isSlot := slotOfType(pp.T); !isSlot || have(pp.T, pp.K) {
+							continue
+						}
+						var k any
+						if pp.K != "-" {
+							k = pp.K
+						}
+						dup := false
+						for _, f := range fills {
+							dup = dup || (f.t == typeByName(pp.T) && f.k == k)
+						}
+						if !dup {
+							fills = append(fills, fill{typeByName(pp.T), k})
+						}
+					}
+				}
+				wasQuiet := R.quiet
+				R.quiet = true
+				for _, f := range fills {
+					s, _ := slotOfType(nameOfType(f.t))
+					v := newS(s, -2000, "filler")
+					if f.k != nil {
+						c.AddSingleton(v, godi.Name(fmt.Sprint(f.k)))
+					} else {
+						c.AddSingleton(v)
+					}
+				}
+				if p0, err := c.Build(); err == nil {
+					p0.Close()
+				}
+				for _, f := range fills {
+					if f.k != nil {
+						c.RemoveKeyed(f.t, f.k)
+					} else {
+						c.Remove(f.t)
+					}
+				}
+				R.mu.Lock()
+				R.inv = map[string]int{}
+				R.provider = nil
+				R.mu.Unlock()
+				R.quiet = wasQuiet
+			}
 			var p godi.Provider
 			var err error
 			withCancel := false
